@@ -84,6 +84,10 @@ def rand_insertions(rng, v, malformed_p=0.12):
             neg = rng.sample(rest, rng.randint(1, min(2, len(rest))))
             if rng.random() < 0.2:
                 neg = neg + rng.sample(missing + [999], 1)
+        elif rng.random() < 0.3:
+            # kwargs.negative lists ONLY ids that are not valid elements (deleted categories,
+            # categories flagged missing, a valid id written as a string): nothing is subtracted
+            neg = phantom_negative(rng, valid, missing)
         r = rng.random()
         if r < 0.2:
             anchor = "top"
@@ -111,6 +115,10 @@ def rand_insertions(rng, v, malformed_p=0.12):
         if rng.random() < 0.6:
             d["id"] = used[k]
         out.append(d)
+        if neg and not any(x in valid for x in neg) and rng.random() < 0.5:
+            # the same subtotal written without the negative list, next to it
+            out.append({"function": "subtotal", "name": "%s_twin%d" % (v.alias, k), "anchor": anchor,
+                        "args": [x for x in pos if isinstance(x, int)]})
         if rng.random() < malformed_p:
             bad = rng.choice(["nondict", "function", "hide", "noname", "noanchor", "empty", "allstale"])
             if bad == "nondict":
@@ -131,6 +139,49 @@ def rand_insertions(rng, v, malformed_p=0.12):
                             "args": [999] + missing, "kwargs": {"negative": [31999]}})
     if rng.random() < 0.1 and out:
         out.append(dict(out[0], hide=False, name="again"))   # hide: False is not hidden
+    return out
+
+
+STALE_IDS = [999, 31999, 12345]
+
+
+def phantom_negative(rng, valid, missing):
+    """A non-empty kwargs.negative list without any valid element id."""
+    flavour = rng.choice(["stale", "missing", "both", "stale", "missing", "both", "wrong-type"])
+    if flavour in ("missing", "both") and not missing:
+        flavour = "stale"
+    if flavour == "stale":
+        return rng.sample(STALE_IDS, rng.randint(1, 2))
+    if flavour == "missing":
+        return rng.sample(missing, rng.randint(1, min(2, len(missing))))
+    if flavour == "both":
+        return rng.sample(missing, 1) + rng.sample(STALE_IDS, 1)
+    return [str(valid[0])] + rng.sample(STALE_IDS + missing, rng.randint(0, 1))
+
+
+def py_valid_dict(d, valid):
+    """the gauntlet of _Subtotals, for the coverage statistics only"""
+    if not isinstance(d, dict) or d.get("function") != "subtotal" or d.get("hide") is True:
+        return False
+    if "anchor" not in d or "name" not in d:
+        return False
+    kw = d.get("kwargs", {})
+    terms = list(kw.get("positive") or d.get("args", [])) + list(kw.get("negative", []))
+    return any((not isinstance(x, (str, type(None)))) and x in valid for x in terms)
+
+
+def phantom_flavours(ins_list, valid, missing):
+    """['only-stale' | 'only-missing' | 'stale+missing'] of the valid dicts whose non-empty negative
+    list contains no valid id"""
+    out = []
+    for d in ins_list or []:
+        if not py_valid_dict(d, valid):
+            continue
+        neg = d.get("kwargs", {}).get("negative") or []
+        if not neg or any(isinstance(x, int) and x in valid for x in neg):
+            continue
+        n_missing = sum(1 for x in neg if isinstance(x, int) and x in missing)
+        out.append("only-missing" if n_missing == len(neg) else ("only-stale" if n_missing == 0 else "stale+missing"))
     return out
 
 
@@ -350,8 +401,8 @@ def build_term(case, sv, transforms, io):
             io["skip"] = ("blocks", repr(e))
             return None
         io["blk"] = blk
-        t = "r_dim_subs %s ++ c04_strand %s %s %s %s %s" % (
-            rd, rd, g_vec(blk["counts"][0]), g_vec(blk["unweighted_counts"][0]),
+        t = "r_dim_rawneg %s ++ r_dim_subs %s ++ c04_strand %s %s %s %s %s" % (
+            rd, rd, rd, g_vec(blk["counts"][0]), g_vec(blk["unweighted_counts"][0]),
             g_vec(blk["weighted_bases"][0]), g_vec(blk["unweighted_bases"][0]))
         if "sums" in blk:
             t += " ++ c04_strand_sums %s %s" % (rd, g_vec(blk["sums"][0]))
@@ -375,8 +426,8 @@ def build_term(case, sv, transforms, io):
     meas = case["_resp"]["result"]["measures"]
     dnw, dnu = "valid_count_weighted" in meas, "valid_count_unweighted" in meas
     base = lambda name: g_mat(blk[name][0][0])  # noqa
-    t = "r_dim_subs %s ++ r_dim_subs %s ++ c04_slice %s %s %s %s %s %s %s %s %s %s %s %s %s %s" % (
-        rd, cd, rd, cd, g_nat(nr), g_nat(nc), base("counts"), base("unweighted_counts"),
+    t = "r_dim_rawneg %s ++ r_dim_rawneg %s ++ r_dim_subs %s ++ r_dim_subs %s ++ c04_slice %s %s %s %s %s %s %s %s %s %s %s %s %s %s" % (
+        rd, cd, rd, cd, rd, cd, g_nat(nr), g_nat(nc), base("counts"), base("unweighted_counts"),
         base("row_weighted_bases"), base("column_weighted_bases"), base("table_weighted_bases"),
         base("row_unweighted_bases"), base("column_unweighted_bases"), base("table_unweighted_bases"),
         g_bool(dnw), g_bool(dnu))
@@ -470,9 +521,11 @@ def compare(case, io, toks, rep):
     d = core.Dec(toks)
     v, blk = io["v"], io["blk"]
     if io["ndim"] == 1:
+        rawneg = [d.list(d.bool)]
         msubs, mdiffs = dec_dim_subs(d)
         io["msubs"] = [msubs]
         io["mdiffs"] = [mdiffs]
+        io["phantom"] = [[rn and not df for rn, df in zip(rawneg[0], mdiffs)]]
         if not check_ids(io, 0, msubs, mdiffs, fails):
             return fails
         io["ids_ok"] = True
@@ -502,10 +555,13 @@ def compare(case, io, toks, rep):
                                   {"measure": name, "block": "inserted_rows", "part": "strand", "oracle": "nan"}))
         assert d.done()
         return fails
+    rawneg = [d.list(d.bool), d.list(d.bool)]
     rsubs, rdiffs = dec_dim_subs(d)
     csubs, cdiffs = dec_dim_subs(d)
     io["msubs"] = [rsubs, csubs]
     io["mdiffs"] = [rdiffs, cdiffs]
+    io["phantom"] = [[rn and not df for rn, df in zip(rawneg[0], rdiffs)],
+                     [rn and not df for rn, df in zip(rawneg[1], cdiffs)]]
     ok = check_ids(io, 0, rsubs, rdiffs, fails)
     ok = check_ids(io, 1, csubs, cdiffs, fails) and ok
     if not ok:
@@ -731,8 +787,15 @@ def oracle(case, sv, io, rep, fails, max_per_dim=2):
             continue
         subs = io["msubs"][axis]
         cand = [k for k, s in enumerate(subs) if not s[1] and s[0]]
+        # subtotals whose kwargs.negative lists only stale / missing ids come first: by the property
+        # they are plain subtotals and the merged category is their oracle like for any other
+        phantom = io.get("phantom", [[], []])[axis]
+        cand.sort(key=lambda k: (not (k < len(phantom) and phantom[k]), k))
         for k in cand[:max_per_dim]:
             s = subs[k]
+            if k < len(phantom) and phantom[k]:
+                rep.dist("oracle_merges_of_phantom_negative_subtotal:" +
+                         ("strand" if ndim == 1 else ("rows" if axis == 0 else "columns")))
             v = sv.var(alias)
             valid_pos = [n for n, c in enumerate(v.cats) if not c["missing"]]
             positions = [valid_pos[i] for i in s[0]]
@@ -912,6 +975,53 @@ def oracle(case, sv, io, rep, fails, max_per_dim=2):
 
 
 # ------------------------------------------------------------------------------------
+# (b') a subtotal whose negative ids are all stale / missing == the same subtotal without them
+# ------------------------------------------------------------------------------------
+
+
+def twin_check(case, io, rep, fails):
+    """Theorem C04_phantom_negative_is_plain on the implementation alone: where the dimension also
+    carries a plain subtotal with the same addends, EVERY measure of the two vectors is identical
+    (population estimates, z-scores, p-values and margins included)."""
+    p = io["part"]
+    ndim = io["ndim"]
+    for axis in range(ndim):
+        subs = io["msubs"][axis]
+        phantom = io.get("phantom", [[], []])[axis]
+        for k, ph in enumerate(phantom):
+            if not ph or subs[k][1] or not subs[k][0]:
+                continue
+            twins = [j for j, s in enumerate(subs) if j != k and not phantom[j] and s == subs[k]]
+            if not twins:
+                continue
+            j = twins[0]
+            where = "strand" if ndim == 1 else ("rows" if axis == 0 else "columns")
+            rep.dist("phantom_negative_vs_plain_twin:" + where)
+            order = list(p.row_order() if axis == 0 else p.column_order())
+            pk, pj = order.index(k - len(subs)), order.index(j - len(subs))
+            names = OS if ndim == 1 else (O2 + OZ + (O1_ROWS if axis == 0 else O1_COLS))
+            for name in names:
+                r = impl.get(p, name)
+                if r[0] != "ok" or r[1] is None:
+                    continue
+                m = np.asarray(r[1], float)
+                if m.ndim == 2:
+                    x, y = (m[pk, :], m[pj, :]) if axis == 0 else (m[:, pk], m[:, pj])
+                    x, y = x.tolist(), y.tolist()
+                elif m.ndim == 1:
+                    x, y = [float(m[pk])], [float(m[pj])]
+                else:
+                    continue
+                if not vec_close(x, y):
+                    fails.append(("%s of a subtotal whose negative ids are all stale / missing differs from "
+                                  "the same subtotal without them" % name,
+                                  {"axis": axis, "subtotal": k, "twin": j, "addend_offsets": subs[k][0],
+                                   "subtotal_vector": x, "twin_vector": y},
+                                  {"oracle": "phantom-twin", "measure": name,
+                                   "part": "strand" if ndim == 1 else "slice"}))
+
+
+# ------------------------------------------------------------------------------------
 # driver
 # ------------------------------------------------------------------------------------
 
@@ -945,6 +1055,7 @@ def evaluate(cases, rep, tag="cases", do_oracle=True):
         have_ids = bool(io.get("ids_ok"))
         if have_ids:
             property_rules(case, io, fails)
+            twin_check(case, io, rep, fails)
             if do_oracle:
                 oracle(case, sv, io, rep, fails)
         nsub = sum(len(m) for m in io.get("msubs", []))
@@ -960,6 +1071,20 @@ def evaluate(cases, rep, tag="cases", do_oracle=True):
             rep.dist("valid_counts=%s" % case["valid_counts"])
         for alias, spec in case["ins"].items():
             rep.dist("insertions_in_" + ("transforms" if spec.get("transforms") is not None else "view"))
+        for axis, ph in enumerate(io.get("phantom", [])):
+            if any(ph):
+                where = "strand" if io["ndim"] == 1 else ("rows" if axis == 0 else "columns")
+                rep.dist("negative_ids_all_stale_or_missing:" + where, sum(1 for x in ph if x))
+                alias, role = dim_alias(sv, case["aliases"], axis)
+                spec = case["ins"].get(alias) or {}
+                eff = spec.get("transforms") if spec.get("transforms") is not None else spec.get("view")
+                rep.dist("negative_ids_all_stale_or_missing:in_" +
+                         ("transforms" if spec.get("transforms") is not None else "view"))
+                v = sv.var(alias)
+                valid_ids = [c["id"] for c in v.cats if not c["missing"]]
+                missing_ids = [c["id"] for c in v.cats if c["missing"]]
+                for fl in phantom_flavours(eff, valid_ids, missing_ids):
+                    rep.dist("negative_ids:" + fl)
         if nt:
             rep.sample({"types": io["types"], "dims": io["dims"], "subs": io.get("msubs"), "ins": case["ins"]})
         for what, detail, ctx in fails:
@@ -981,7 +1106,10 @@ def run(tier, seed):
         "per-item missingness) tabulated to CAT|CAT_DATE x CAT|CAT_DATE|MR slices (both orientations), CA slices and "
         "CAT|CAT_DATE|MR strands; 0-3 insertions per categorical dimension on the view and/or in the transforms "
         "(override, empty override): overlapping / repeated / stale / missing-category / str / None ids, args vs "
-        "kwargs.positive, differences with 1-2 terms per side (also overlapping the addends, only-negative), anchors "
+        "kwargs.positive, differences with 1-2 terms per side (also overlapping the addends, only-negative), "
+        "~20% of the insertions with a kwargs.negative that lists ONLY stale ids / ONLY ids flagged missing / both / "
+        "a valid id as a string (nothing to subtract: a plain subtotal), half of them next to the same subtotal "
+        "written without the negative list, anchors "
         "top / bottom / valid id / stale / None / odd spelling, with and without ids, ~12% dicts the gauntlet must "
         "reject (non-dict, other function, hide, no name / anchor, empty, all stale); optional numeric measures "
         "(mean / sum / stddev / median) with no / both / unweighted-only valid counts; non-trivial = at least one "
